@@ -222,7 +222,7 @@ def explore(fn, rule, max_states=200000, entry_state=None):
         for s in states:
             for succ, lab in es:
                 s2 = s
-                if lab is not None:
+                if lab is not None and (cond is not None or lab not in ("T", "F")):
                     r = rule.branch(fn, s, blk, cond, lab)
                     if r is DEAD:
                         continue
